@@ -242,6 +242,105 @@ static void runNative(Case& c) {
   printf(" | blocked | %s | status done\n", extraOf(c).c_str());
 }
 
+// ---------------------------------------------------------------------------------------------------------------
+// when_all / when_any (history level).  Case: <wa|wy> <variant 0 vec|1 tuple3> <ts 0|1> <pre 0|1> <n> 0 <budget> ; <prog> ; ... ; S ...
+// (fields reuse Case: allowInline=variant, hasTsc=ts, val=pre, exc=n).  ops: K<i> run input i's OnceFunction, A create the
+// combinator (when pre=0), G get() on the result (spins until created), S task-set wait then sample result readiness.
+using FL = Future<long>;
+struct CombWorld {
+  Case& c;
+  int n;
+  std::vector<dispenso::detail::InterceptionInvoker> inv;
+  std::vector<FL> in;
+  std::vector<dispenso::detail::FutureImplBase<long>*> impl;
+  FakeTS ts;
+  dispenso::detail::TaskSetInterceptionInvoker<FakeTS> tinv{ts};
+  Future<std::vector<FL>> rall;
+  Future<std::tuple<FL, FL, FL>> rallT;
+  Future<size_t> rany;
+  std::atomic<int> created{0};
+  std::atomic<int> infc[8];
+  explicit CombWorld(Case& cc) : c(cc), n(cc.exc), inv(static_cast<size_t>(cc.exc)) {
+    for (auto& x : infc) x.store(0);
+    for (int i = 0; i < n; ++i) {
+      CombWorld* self = this;
+      in.push_back(FL([self, i]() { self->infc[i].fetch_add(1); return 100L + i; }, inv[static_cast<size_t>(i)], dispenso::kNotAsync, std::launch::deferred));
+      impl.push_back(reinterpret_cast<dispenso::detail::FutureBase<long>&>(in.back()).impl_);
+    }
+  }
+  bool rdy(int i) { return impl[static_cast<size_t>(i)]->status_.intrusiveStatus().load() == 2; }
+  bool any() const { return c.mode == "wy"; }
+  void create() {
+    bool tup = c.allowInline != 0, t = c.hasTsc != 0;
+    if (!any()) {
+      if (tup) rallT = t ? dispenso::detail::whenAllTuple(tinv, in[0], in[1], in[2]) : dispenso::when_all(in[0], in[1], in[2]);
+      else rall = t ? dispenso::detail::whenAllIterators(tinv, in.begin(), in.end()) : dispenso::when_all(in.begin(), in.end());
+    } else {
+      if (tup) rany = t ? dispenso::detail::whenAnyTuple(tinv, in[0], in[1], in[2]) : dispenso::when_any(in[0], in[1], in[2]);
+      else rany = t ? dispenso::detail::whenAnyIterators(tinv, in.begin(), in.end()) : dispenso::when_any(in.begin(), in.end());
+    }
+    created.store(1);
+  }
+  void waitCreated() {
+    dispenso_verif_point("h.spin", this);
+    while (!created.load()) dispenso_verif_point("h.spin", this);
+  }
+  bool resultReady() {
+    if (any()) return rany.is_ready();
+    return c.allowInline ? rallT.is_ready() : rall.is_ready();
+  }
+  void runProg(size_t t) {
+    for (const Op& o : c.ths[t].prog) {
+      if (o.k == 'K') {
+        inv[static_cast<size_t>(o.a)].savedOffFn();
+      } else if (o.k == 'A') {
+        create();
+      } else if (o.k == 'S') {
+        waitCreated();
+        dispenso_verif_point("h.ts.load", &ts);
+        while (ts.outstandingTaskCount_.load(std::memory_order_acquire) != 0) dispenso_verif_point("h.ts.load", &ts);
+        logres("tswait", resultReady() ? 1 : 0);
+      } else if (o.k == 'G') {
+        waitCreated();
+        if (any()) {
+          size_t idx = rany.get();
+          logres("wany", idx == SIZE_MAX ? -1 : static_cast<long>(idx));
+          logres("wanyr", (n == 0 && idx == SIZE_MAX) || (idx < static_cast<size_t>(n) && rdy(static_cast<int>(idx))) ? 1 : 0);
+        } else {
+          long notReady = 0, order = 1, size = 0;
+          if (c.allowInline) {
+            const auto& tp = rallT.get();
+            for (int i = 0; i < n; ++i) notReady += rdy(i) ? 0 : 1;
+            size = 3;
+            order = (std::get<0>(tp).get() == 100 && std::get<1>(tp).get() == 101 && std::get<2>(tp).get() == 102) ? 1 : 0;
+          } else {
+            const auto& v = rall.get();
+            for (int i = 0; i < n; ++i) notReady += rdy(i) ? 0 : 1;
+            size = static_cast<long>(v.size());
+            for (size_t i = 0; i < v.size(); ++i) order = (order && v[i].get() == 100 + static_cast<long>(i)) ? 1 : 0;
+          }
+          logres("wall", notReady);
+          logres("wsize", size);
+          logres("worder", order);
+        }
+      }
+    }
+  }
+};
+
+static void runComb(Case& c) {
+  CombWorld* w = new CombWorld(c);
+  if (c.val) w->create();   // registration before any completion, on the unenrolled main thread
+  vs::Sched* S = new vs::Sched(c.sched, c.budget, false);
+  g_S = S;
+  for (size_t t = 0; t < c.ths.size(); ++t) S->spawn([w, t]() { w->runProg(t); });
+  S->run();
+  std::ostringstream ex;
+  ex << "infc";
+  for (int i = 0; i < w->n; ++i) ex << " " << w->infc[i].load();
+  S->print(ex.str());
+}
+
 static Case parseCase(const std::string& line) {
   Case c;
   std::vector<std::string> parts;
@@ -260,9 +359,14 @@ static Case parseCase(const std::string& line) {
       continue;
     }
     ThreadDesc td;
-    td.h0 = atoi(first.c_str());
     std::string tok;
-    ps >> td.tok >> tok;   // tok == ":"
+    if (c.mode == "wa" || c.mode == "wy") {
+      ps.clear();
+      ps.str(parts[i]);
+    } else {
+      td.h0 = atoi(first.c_str());
+      ps >> td.tok >> tok;   // tok == ":"
+    }
     while (ps >> tok) {
       Op o;
       o.k = tok[0];
@@ -283,7 +387,7 @@ int main() {
     if (pid == 0) {
       alarm(20);
       Case c = parseCase(line);
-      if (c.mode == "nt") runNative(c); else runScheduled(c);
+      if (c.mode == "nt") runNative(c); else if (c.mode == "wa" || c.mode == "wy") runComb(c); else runScheduled(c);
       fflush(stdout);
       _exit(0);
     }
